@@ -1,20 +1,27 @@
 """C19 — findall/all in probabilistic programs follow the possible-world semantics."""
 import itertools
+import os
+import sys
 from fractions import Fraction
 
 import vf
 import pl
 
+sys.path.insert(0, os.path.join(vf.VERIF, "gen"))
+import c19_findall as cf  # noqa: E402
+
 META = {
     "id": "C19",
     "level": "proof",
-    "technique": "Coq proof that _select_sublist partitions the truth assignments (exactly one entry per assignment, its list = true solutions in order) over a hand model tied to engine_builtin._select_sublist by differential runs; findall/all programs judged against a possible-world enumerator",
+    "technique": "Coq proofs over hand models of the findall machinery: _select_sublist partitions the truth assignments; enumerate_branches is a DNF of the node on every acyclic formula (no empty branch, multiplicity = number of branches); the findall/3 and all/3 builtins (collection, stable sort by the max-node heuristic, _select_sublist, add_and, dropping FALSE nodes / the empty list) yield lists of which exactly one holds per assignment = the true proofs in the model's order. Models tied to the real code by differential runs on recorded builtin calls; findall/all programs judged against a possible-world enumerator",
     "design_ref": "DESIGN.md §5 C19",
     "text": "Unbounded theorems (any list, any assignment) on the Gallina model of _select_sublist: existence+uniqueness of the satisfied entry and equality of its sublist with the ordered list of true solutions. "
             "The model is compared with the real generator on random (term,node) lists (exact output incl. enumeration order). "
+            "The real findall/all builtins are recorded on generated programs (findall_target dump, results, enumerate_branches outputs, list given to _select_sublist, outputs) and compared with ModelBranches (eb, mult, all_proofs+sort_mx, findall_model, all_out); the hypotheses of C19_findall_lists_partition (copy_node/add_and keys have the value of the conjunction) and its conclusion are judged on the real data by exhaustive assignments. "
             "Whole findall/3, all/3 programs are judged against exhaustive world enumeration done in the harness (exact rationals).",
     "note": "Trusted: Coq kernel+vm_compute; hand model of _select_sublist (sampled correspondence); the harness world enumerator for propositional findall programs; "
-            "solution ORDER of the sub-goal inside findall (proof order) is only tied by the sampled programs, not proved.",
+            "hand model of enumerate_branches/get_node_multiplicity/_builtin_findall_base/_builtin_all (sampled correspondence on recorded calls); target node numbering abstracted (pn, cn) under the builder-correctness hypothesis checked per call; "
+            "solution ORDER: the model fixes 'stable sort by mx'; that this is Prolog order is NOT proved (known findings).",
 }
 
 HEADER = """From Coq Require Import ZArith NArith List Bool.
@@ -159,7 +166,7 @@ def _eval(src):
 def run_programs(ctx):
     n = ctx.n(120, 3000)
     progs = [gen_findall_program(ctx.rng) for _ in range(n)]
-    results = pl.pmap(_eval, [p[0] for p in progs])
+    results = pl.pmap(_eval, [p[0] for p in progs], jobs=8)
     for (src, probs, clauses, kind), res in zip(progs, results):
         want = spec_findall(probs, clauses, kind)
         nontrivial = len(want) >= 3
@@ -189,6 +196,219 @@ def run_programs(ctx):
                       {"program": src, "got": got, "want": {k: str(v) for k, v in want.items()}}, klass=klass)
 
 
+# ------------------------------------------------------------------ the findall machinery on recorded calls
+HEADER2 = HEADER + """From PL.C09 Require Import BoolGraph.
+From PL.C19 Require Import ModelBranches.
+Definition beq (a b : Z * list Z) : bool := Z.eqb (fst a) (fst b) && leq Z.eqb (snd a) (snd b).
+Definition obeq (x : option (list (Z * list Z))) (y : list (Z * list Z)) : bool :=
+  match x with Some l => leq beq l y | None => false end.
+Definition peq (a b : Z * Z * list Z) : bool :=
+  Z.eqb (fst (fst a)) (fst (fst b)) && Z.eqb (snd (fst a)) (snd (fst b)) && leq Z.eqb (snd a) (snd b).
+Definition tbl_pn (t : list (list Z * key)) (b : list Z) : key :=
+  match find (fun e => leq Z.eqb (fst e) b) t with Some e => snd e | None => None end.
+Definition tbl_cn (t : list (list key * key)) (ks : list key) : key :=
+  match find (fun e => leq keq (fst e) ks) t with Some e => snd e | None => None end.
+Definition oeq (a b : list Z * key) : bool := leq Z.eqb (fst a) (fst b) && keq (snd a) (snd b).
+Definition omeq (x : option nat) (m : nat) : bool := match x with Some k => Nat.eqb k m | None => false end.
+"""
+
+
+def _capture(src):
+    return cf.capture(src, timeout=30)
+
+
+def coq_graph(nodes):
+    out = []
+    for i, n in enumerate(nodes):
+        if n[0] == "atom":
+            out.append("NAtom %s" % vf.coq_N(i))
+        else:
+            if any(c is None for c in n[1]):
+                raise ValueError("FALSE child in a node")
+            out.append("%s %s" % ("NAnd" if n[0] == "conj" else "NOr", vf.coq_list([vf.coq_Z(c) for c in n[1]])))
+    return vf.coq_list(out)
+
+
+def coq_zl(l):
+    return vf.coq_list([vf.coq_Z(x) for x in l])
+
+
+def list_str(terms):
+    return "[" + ", ".join(terms) + "]"
+
+
+def judge_call(ctx, src, ci, c, cases, metas, defs):
+    """Judge one recorded builtin call against the property-level reading and emit the
+    Coq comparison terms.  Returns False when the call was skipped."""
+    kind = c["kind"]
+    rep = {"program": src, "call": ci, "kind": kind}
+    if "results" not in c or "lst" not in c or "entries" not in c:
+        ctx.count("call_incomplete_record")
+        return False
+    results, lst, entries, out, cn = c["results"], c["lst"], c["entries"], c["out"], c["cn"]
+    tgt, sg = c["target"], c["src"]
+    codes = {t: i for i, t in enumerate(sorted({t for t, _ in results}))}
+    if len(lst) > 7:
+        ctx.count("call_skipped_more_than_7_proofs")
+        return False
+    if not cf.is_acyclic(tgt):
+        ctx.count("call_skipped_cyclic_target")
+        return False
+    src_acyclic = cf.is_acyclic(sg)
+    ids = sorted(set(cf.atom_ids(tgt)) | set(cf.atom_ids(sg)))
+    if len(ids) > 8:
+        ctx.count("call_skipped_more_than_8_atoms")
+        return False
+    gname = "g%d" % len(defs)
+    defs.append("Definition %s : graph := %s." % (gname, coq_graph(sg)))
+    fuel = "(default_fuel %s)" % gname
+    coq_results = vf.coq_list(["(%s, %s)" % (vf.coq_Z(codes[t]), coq_key(n)) for t, n in results])
+
+    def add(case, what):
+        cases.append(case)
+        metas.append((what, src))
+
+    # pairing of the outputs with the entries of _select_sublist (order kept, FALSE nodes dropped)
+    kept = [(e, k) for e, k in zip(entries, cn) if k != "skip" and k is not None]
+    if [(list_str(e[0]), k) for e, k in kept] != [(l, k) for l, k in out]:
+        ctx.violation("%s/3 builtin: outputs are not the entries of _select_sublist with a non-FALSE add_and node, in order:\n%s\nentries+nodes %r\noutputs %r"
+                      % (kind, src, list(zip(entries, cn)), out), rep, klass=None)
+        return False
+    coq_out = vf.coq_list(["(%s, %s)" % (coq_zl([codes[t] for t in e[0]]), coq_key(k)) for e, k in kept])
+    cn_tbl = vf.coq_list(["(%s, %s)" % (vf.coq_list([coq_key(x) for x in e[1]]), coq_key(k))
+                          for e, k in zip(entries, cn) if k != "skip"])
+
+    if kind == "all":
+        if [(t, n) for t, n in results] != [(t, n) for t, n in lst]:
+            ctx.violation("all/3: list given to _select_sublist differs from the engine results:\n%s" % src, rep, klass=None)
+            return False
+        coq_lst = vf.coq_list(["(%s, %s)" % (vf.coq_Z(codes[t]), coq_key(n)) for t, n in lst])
+        add("leq oeq (all_out %s (tbl_cn %s) %s) %s" % (vf.coq_bool(c["allow_none"]), cn_tbl, coq_lst, coq_out), "all_out")
+        proofs_true = None
+    else:
+        # ---- enumerate_branches / multiplicity vs the model (cyclic formulas included: the model has the guard)
+        if len(c["enum"]) != len(results) or [i for i, _, _ in c["enum"]] != [n for _, n in results]:
+            ctx.violation("findall/3: enumerate_branches is not called once per result in order:\n%s" % src, rep, klass=None)
+            return False
+        unsorted = []
+        for r, ((t, n), (_, brs, mult)) in enumerate(zip(results, c["enum"])):
+            obs = vf.coq_list(["(%s, %s)" % (vf.coq_Z(mx), coq_zl(b)) for mx, b in brs])
+            add("obeq (eb_key %s %s %s) %s" % (gname, fuel, coq_key(n), obs), "enumerate_branches")
+            if isinstance(mult, int):
+                add("omeq (mult_key %s %s %s) %s" % (gname, fuel, coq_key(n), vf.coq_nat(mult)), "get_node_multiplicity")
+                if src_acyclic and mult != len(brs):
+                    ctx.violation("get_node_multiplicity(%r) = %d but enumerate_branches yields %d branches:\n%s"
+                                  % (n, mult, len(brs), src), rep, klass=None)
+            for bi, (mx, b) in enumerate(brs):
+                unsorted.append((mx, t, b))
+        order = sorted(unsorted, key=lambda x: x[0])      # the same stable sort the builtin uses
+        if [t for _, t, _ in order] != [t for t, _ in lst]:
+            ctx.violation("findall/3: the list given to _select_sublist is not the proofs stably sorted by mx:\n%s\nproofs %r\nlist %r"
+                          % (src, order, lst), rep, klass=None)
+            return False
+        add("match all_proofs %s %s %s with Some ps => leq peq (sort_mx ps) %s | None => false end"
+            % (gname, fuel, coq_results,
+               vf.coq_list(["(%s, %s, %s)" % (vf.coq_Z(mx), vf.coq_Z(codes[t]), coq_zl(b)) for mx, t, b in order])), "all_proofs+sort_mx")
+        pn = {}
+        functional = True
+        for (mx, t, b), (_, k) in zip(order, lst):
+            if b and pn.setdefault(tuple(b), k) != k:
+                functional = False
+        if functional:
+            pn_tbl = vf.coq_list(["(%s, %s)" % (coq_zl(b), coq_key(k)) for b, k in pn.items()])
+            add("match findall_model %s %s (tbl_pn %s) (tbl_cn %s) %s with Some o => leq oeq o %s | None => false end"
+                % (gname, fuel, pn_tbl, cn_tbl, coq_results, coq_out), "findall_model")
+        else:
+            ctx.count("call_pn_not_functional")
+        if not src_acyclic:
+            ctx.count("call_cyclic_findall_target")
+            return "cyclic"
+        proofs_true = order
+
+    # ---- property-level judge by exhaustive assignments (hypotheses AND conclusion of the Coq theorems)
+    for a in cf.assignments(ids):
+        tv = cf.evaluator(tgt, a)
+        if kind == "findall":
+            sv = cf.evaluator(sg, a)
+            for (t, n), (_, brs, _) in zip(results, c["enum"]):
+                dnf = any(bool(b) and all(sv(x) for x in b) for _, b in brs)
+                if dnf != sv(n):
+                    ctx.violation("enumerate_branches(%r) is not equivalent to the node under %r (branches %r):\n%s"
+                                  % (n, a, brs, src), dict(rep, assignment=a), klass=None)
+                    return False
+            for (mx, t, b), (_, k) in zip(proofs_true, lst):
+                if tv(k) != (bool(b) and all(sv(x) for x in b)):
+                    ctx.violation("findall/3: proof node %r (copy_node+add_and of branch %r) is not equivalent to the branch under %r:\n%s"
+                                  % (k, b, a, src), dict(rep, assignment=a), klass=None)
+                    return False
+            want = [t for (mx, t, b) in proofs_true if bool(b) and all(sv(x) for x in b)]
+            expect_one = True
+        else:
+            want = [t for t, n in lst if tv(n)]
+            expect_one = c["allow_none"] or bool(want)
+        for e, k in zip(entries, cn):
+            if k != "skip" and tv(k) != all(tv(x) for x in e[1]):
+                ctx.violation("%s/3: add_and(%r) = %r is not the conjunction under %r:\n%s" % (kind, e[1], k, a, src),
+                              dict(rep, assignment=a), klass=None)
+                return False
+        sat = [l for l, k in out if tv(k)]
+        if (expect_one and sat != [list_str(want)]) or (not expect_one and sat):
+            ctx.violation("%s/3: under assignment %r the result lists whose node holds are %r, expected %s:\n%s"
+                          % (kind, a, sat, ("exactly [%s]" % list_str(want)) if expect_one else "none", src),
+                          dict(rep, assignment=a, outputs=out), klass=None)
+            return False
+    return True
+
+
+CYCLE_CLASS = "findall-cyclic-goal-branch-ignores-recursive-call"
+
+
+def run_machinery(ctx):
+    n = ctx.n(150, 3000)
+    progs = [cf.gen_rich_program(ctx.rng) for _ in range(n)]
+    caps = pl.pmap(_capture, [p[0] for p in progs], jobs=8)
+    cases, metas, defs = [], [], []
+    for (src, kind), (st, err, calls) in zip(progs, caps):
+        if st == "err":
+            if err == "Timeout":
+                ctx.count("machinery_timeout")
+                continue
+            ctx.violation("grounding a findall/all program raised %s:\n%s" % (err, src), {"program": src, "error": err}, klass=None)
+            continue
+        for ci, c in enumerate(calls):
+            ok = judge_call(ctx, src, ci, c, cases, metas, defs)
+            ctx.count("machinery_%s_%s" % (c["kind"], "judged" if ok is True else "not_judged"))
+            nontrivial = ok is True and len(c.get("lst", [])) >= 3 and len(c.get("out", [])) >= 3
+            ctx.case(("call", src, ci), nontrivial,
+                     sample={"program": src, "results": c.get("results"), "branches": [e[1] for e in c.get("enum", [])],
+                             "sorted_list": c.get("lst"), "outputs": c.get("out", [])[:6]})
+    # the cyclic witness: the MODEL must reproduce the real (defective) enumeration; the defect itself is
+    # reported only once the lead has listed the class (otherwise the clean tree could not exit 0)
+    st, err, calls = cf.capture(cf.CYCLIC_WITNESS)
+    if st == "ok" and calls:
+        r = judge_call(ctx, cf.CYCLIC_WITNESS, 0, calls[0], cases, metas, defs)
+        c = calls[0]
+        bad = [(n, brs) for n, brs, _ in c["enum"] if any(set(b) == {5, 7} for _, b in brs)]
+        if r == "cyclic" and bad:
+            ctx.count("cyclic_witness_defect_reproduced")
+            if any(k.get("property") == "C19" and k.get("class") == CYCLE_CLASS for k in ctx.known):
+                ctx.violation("findall/3 over a cyclic goal: enumerate_branches yields the branch e(b,c),e(c,b) for r(b) "
+                              "(the recursive call cut by the cycle guard counts as true); P(q([])) = 0.1875 instead of 0.25",
+                              {"program": cf.CYCLIC_WITNESS, "branches": bad}, klass=CYCLE_CLASS)
+            else:
+                ctx.notes.append("cyclic-goal defect of enumerate_branches reproduced (class %s not yet in known_findings.json: not reported as violation)" % CYCLE_CLASS)
+    try:
+        bad = ctx.coq_failing(HEADER2 + "\n".join(defs) + "\n", cases, name="fm", shard=250, jobs=4)
+    except RuntimeError as e:
+        ctx.broken.append("correspondence:ModelBranches does not evaluate")
+        ctx.notes.append(str(e))
+        return
+    ctx.cov["findall_machinery_model_vs_impl_cases"] = len(cases)
+    ctx.cov["findall_machinery_model_vs_impl_agree"] = len(cases) - len(bad)
+    for i in bad[:5]:
+        ctx.broken.append("correspondence:ModelBranches.%s vs /repo on program %r" % metas[i])
+
+
 def parse_list(key):
     inner = key[len("q(["):-2]
     return [x for x in inner.split(",") if x]
@@ -210,9 +430,16 @@ def run(ctx):
     ctx.cov["rule"] = ("(a) random (term,node) lists of length 0-6 with TRUE/FALSE/signed node ids (repeated ids allowed) through _select_sublist: "
                        "non-trivial = >=2 distinct node ids and at least one deterministic or repeated element; "
                        "(b) random propositional programs with findall/3 or all/3 over a predicate with 1-5 ordered clauses over 1-4 probabilistic facts: "
-                       "non-trivial = >=3 distinct result lists with non-zero probability")
+                       "non-trivial = >=3 distinct result lists with non-zero probability; "
+                       "(c) random acyclic propositional programs (facts, optional AD and deterministic fact, intermediate predicates with negation, p/1 with 1-4 clauses) "
+                       "under findall/3, all/3, all_or_none/3: every recorded builtin call is compared with ModelBranches and judged by exhaustive assignments: "
+                       "non-trivial = >=3 proofs and >=3 output lists")
     ctx.assumptions += ["hand model of _select_sublist tied by sampled differential runs",
+                        "hand model of enumerate_branches / get_node_multiplicity / _builtin_findall_base / _builtin_all tied on recorded builtin calls; "
+                        "target keys (copy_node, add_and) abstracted, their builder-correctness hypothesis judged per call",
+                        "findall order = stable sort by mx (the code's heuristic), not Prolog order",
                         "harness-side world enumerator (Fractions) is the judge for whole programs"]
     ctx.prove("C19/Props.v")
     run_select_sublist(ctx)
+    run_machinery(ctx)
     run_programs(ctx)
